@@ -255,7 +255,12 @@ func boundedLoopCounter(ph *ssa.Phi) (int64, bool) {
 // deferred or spawned call) lies on any path between the two. The prover then uses one variable
 // for both, so `if c.refCursor > 3 { return }; c.refs[c.refCursor]` is provable although the
 // function stores the field later.
-func earlierSameLoad(ld *ssa.UnOp) *ssa.UnOp {
+func earlierSameLoad(ld *ssa.UnOp) *ssa.UnOp { return earlierSameLoadD(ld, 0) }
+
+func earlierSameLoadD(ld *ssa.UnOp, depth int) *ssa.UnOp {
+	if depth > 2 {
+		return nil
+	}
 	fa, ok := ld.X.(*ssa.FieldAddr)
 	if !ok || ld.Block() == nil {
 		return nil
@@ -319,7 +324,7 @@ func earlierSameLoad(ld *ssa.UnOp) *ssa.UnOp {
 			return
 		}
 		fa1, ok := l1.X.(*ssa.FieldAddr)
-		if !ok || fa1.X != fa.X || fa1.Field != fa.Field {
+		if !ok || fa1.Field != fa.Field || !sameBase(fa1.X, fa.X, depth) {
 			return
 		}
 		if !b1.Dominates(b2) {
@@ -369,4 +374,34 @@ func earlierSameLoad(ld *ssa.UnOp) *ssa.UnOp {
 		best = l1
 	})
 	return best
+}
+
+// sameBase: two struct pointers denote the same object: the same SSA value, or loads of the same
+// field that repeat each other (m.A.B read twice).
+func sameBase(a, b ssa.Value, depth int) bool {
+	if a == b {
+		return true
+	}
+	if depth > 2 {
+		return false
+	}
+	la, ok1 := a.(*ssa.UnOp)
+	lb, ok2 := b.(*ssa.UnOp)
+	if !ok1 || !ok2 || la.Op != token.MUL || lb.Op != token.MUL {
+		return false
+	}
+	fa, ok1 := la.X.(*ssa.FieldAddr)
+	fb, ok2 := lb.X.(*ssa.FieldAddr)
+	if !ok1 || !ok2 || fa.Field != fb.Field || !sameBase(fa.X, fb.X, depth+1) {
+		return false
+	}
+	// both repeat a common earlier load (or one repeats the other)
+	ca, cb := ssa.Value(la), ssa.Value(lb)
+	if e := earlierSameLoadD(la, depth+1); e != nil {
+		ca = e
+	}
+	if e := earlierSameLoadD(lb, depth+1); e != nil {
+		cb = e
+	}
+	return ca == cb || ca == ssa.Value(lb) || cb == ssa.Value(la)
 }
